@@ -1,6 +1,7 @@
 //! bounded — exhaustive small-scope enumerators on the real crates (DESIGN.md §4).
 //!   bounded <check> --tier quick|thorough --seed N --out FILE [--known FILE]
 //!   bounded <check> --replay FILE
+mod depcheck;
 mod harness;
 mod obs;
 mod ops;
@@ -933,6 +934,25 @@ fn main() {
         }
         println!("miri-set: {} histories executed, {} failed", n, bad);
         std::process::exit(if bad == 0 { 0 } else { 1 });
+    }
+    if args.check == "depcheck" {
+        let t0 = std::time::Instant::now();
+        let (evals, contracts, fails) = depcheck::run(if args.tier == "thorough" { 6 } else { 4 });
+        std::panic::set_hook(prev);
+        let fv: Vec<serde_json::Value> = fails.iter().take(30).map(|f| serde_json::json!({"properties": ["DEPCHECK"], "property": "DEPCHECK", "classification": format!("depcheck/{}", f.contract), "what": "an assumed contract of /verif/prelude disagrees with the real dependency", "step": 0, "expected": f.expected, "observed": f.observed, "known": null, "input": {"kind": "depcheck", "contract": f.contract, "input": f.input}})).collect();
+        let j = serde_json::json!({
+            "check": "depcheck", "tier": args.tier, "seed": 0,
+            "scope": "every assumed dependency contract of /verif/prelude (imbl::Vector methods incl. the panics, iterator adapters, SmallVec/ArrayVec, tokio broadcast send/recv/lag/close/subscribe, Arc/Weak counts) transcribed as an executable predicate and compared with the real crates on all vectors up to length 4 (thorough: 6), capacities {1,2,3,5}, 0..retained+3 messages",
+            "evaluations": evals, "distinct_nontrivial": contracts,
+            "rule": "distinct non-trivial cases = distinct prelude contracts exercised",
+            "exhaustive": true, "samples": [], "failures": fv, "elapsed_s": t0.elapsed().as_secs_f64(),
+        });
+        let text = serde_json::to_string_pretty(&j).unwrap();
+        match &args.out {
+            Some(p) => std::fs::write(p, text).unwrap(),
+            None => println!("{}", text),
+        }
+        return;
     }
     if args.check == "diffmap" || args.check == "mutators" {
         let t0 = std::time::Instant::now();
